@@ -35,6 +35,7 @@ structure JOp where
   phases : List (List Nat)
   i : Int
   st : Option String      -- op "life": the `.spec.lifecycleState` to set (active | paused | archived)
+  fault : Option String   -- op "deploy": the API fault that hits the call (`toFault`); absent / "" = none
   deriving FromJson
 
 structure JLPhase where
@@ -140,6 +141,21 @@ def toLife : String → Option Life
   | "archived" => some .archived
   | _ => none
 
+/-- The API faults of the harness (`c14Client.fault`). -/
+def toFault : String → Option DFault
+  | "get" => some .get
+  | "create" => some .create
+  | "update" => some .update
+  | "updatelost" => some .updateLost
+  | "conflict" => some .conflict
+  | "conflict+update" => some .conflictUpdate
+  | "oslist" => some .osList
+  | "slicelist" => some .sliceList
+  | "gcdel" => some .gcDelete
+  | _ => none
+
+def JOp.faultStr (op : JOp) : String := op.fault.getD ""
+
 def toStrategy : String → Option Strategy
   | "binpack" | "default" | "junk" => some .binpack
   | "each" => some .each
@@ -183,7 +199,7 @@ def Dep.valid (d : Dep) : Bool :=
   d.ops.all fun op =>
     match op.op with
     | "chunk" => op.phases.all (okIds · true)
-    | "deploy" => op.phases.all (okIds · (d.strat == .binpack))
+    | "deploy" => op.phases.all (okIds · (d.strat == .binpack)) && (op.faultStr.isEmpty || (toFault op.faultStr).isSome)
     | "snap" | "delos" | "markdel" => true
     | "life" => (op.st.bind toLife).isSome
     | _ => false
@@ -210,7 +226,9 @@ def delosIdx {α : Type} (w : List α) (i : Int) : Nat := if i < 0 then w.length
 def Dep.toOp (d : Dep) (nSets : Nat) (op : JOp) : Option Op :=
   match op.op with
   | "chunk" => some (.chunk (op.phases.map d.objs))
-  | "deploy" => some (.deploy (op.phases.map d.objs))
+  | "deploy" =>
+    if op.faultStr.isEmpty then some (.deploy (op.phases.map d.objs))
+    else (toFault op.faultStr).map (.deployF · (op.phases.map d.objs))
   | "snap" => some .snap
   | "delos" => some (.delos (if op.i < 0 then nSets else op.i.toNat))
   | "life" => (op.st.bind toLife).map (.life (if op.i < 0 then nSets else op.i.toNat))
@@ -220,7 +238,7 @@ def Dep.toOp (d : Dep) (nSets : Nat) (op : JOp) : Option Op :=
 /-- Print one step of the model the way the Go harness prints it. -/
 def renderStep (fpOf : Nat → Nat) (w w' : World SName) : Op → Obs SName → String
   | .chunk _, .chunk outs => "K " ++ join "/" (outs.map (chunkObsStr fpOf))
-  | .deploy _, .deploy o =>
+  | .deploy _, .deploy o | .deployF _ _, .deploy o =>
     let created := (names w'.slices).filter fun n => (getSlice w.slices n).isNone
     s!"D {if o.ok then "ok" else "err"} T={tmplStr fpOf o.tmpl} C={join "," (created.map (nameStr fpOf))} " ++
     s!"X={join "," (sortStrs (o.deleted.map (nameStr fpOf)))} S={join "," (sortStrs (o.store.map (entryStr fpOf)))}"
@@ -464,6 +482,18 @@ def gcWhy (fpOf : Nat → Nat) (s : SpecState SName) (o : DeployObs SName) : Str
     s!"deleted-slice={nameStr fpOf n} still-referenced-by={by_}"
   | none => "deleted-slice-not-in-gc-scope(no owner label)"
 
+/-- Which clause of `deployOkF` fails (message only).  The clause of the property's sentence first. -/
+def deployWhyF (d : Dep) (f : DFault) (s : SpecState SName) (desired : List (List Obj)) (o : DeployObs SName) : String :=
+  if !gcSafe s o then "gc " ++ gcWhy d.fpOf s o
+  else if !storedLoadable s o then "stored-template-references-missing-slice"
+  else if !lossless desired o then "lossless " ++ losslessWhy d.fpOf desired o
+  else if !failSafeF f s desired o then
+    (if !o.deleted.isEmpty then "fail-safe failed-call-deleted-slices" else "fail-safe template-neither-old-nor-new")
+  else if !namedByContent (isSymHashOf d.kcoll) s o then "named-by-content"
+  else if !noReuse s o then "name-reused"
+  else if !sameContentSameName o then "same-content-different-name"
+  else "?"
+
 def deployWhy (d : Dep) (s : SpecState SName) (desired : List (List Obj)) (o : DeployObs SName) : String :=
   if !lossless desired o then "lossless " ++ losslessWhy d.fpOf desired o
   else if !failSafe s o then "fail-safe"
@@ -503,6 +533,8 @@ def diagnoseDep (d : Dep) (ops : List (JOp × Op)) (obs : List (Obs SName)) : St
           j := j + 1
         return s!"bad chunk step={i} phase-count"
       | .deploy desired, .deploy o => return s!"bad {deployWhy d s desired o} step={i} op={jop.op}"
+      | .deployF f desired, .deploy o =>
+        return s!"bad {deployWhyF d f s desired o} step={i} op={jop.op} fault={jop.faultStr} result={if o.ok then "ok" else "err"}"
       | _, _ => return s!"bad shape step={i} op={jop.op}"
     s := s'
     i := i + 1
@@ -530,6 +562,7 @@ def monitorDep (d : Dep) (out : String) : String := Id.run do
       obs := obs ++ [ob]
       match op with
       | .deploy _ => haveDeploy := true
+      | .deployF f _ => if f != .get && f != .create then haveDeploy := true
       | .snap => if haveDeploy then nSets := nSets + 1
       | .delos k => if k < nSets then nSets := nSets - 1
       | _ => pure ()
